@@ -117,6 +117,9 @@ class MonoDomain:
                 # a component the guard under study assumes zero: the general formula is followed past its own zero tests as well
                 return ("cond", "iszero", "assumed-zero", False)
             return ("cond", "iszero", None, False)
+        if n in ("is_one", "eq", "ne", "lt", "le", "gt", "ge") and a and all(M(x) or x is TOP for x in a):
+            # any other test of base-field values: an opaque condition (paths on which it held are not shortcuts this rule reads)
+            return ("cond", "iszero", None, n == "ne")
         if len(a) >= 1 and all(M(x) for x in a):
             if n in ("mul", "mul_inplace", "mul_assign") and len(a) == 2:
                 r = mmul(a[0], a[1])
@@ -271,3 +274,77 @@ def _subst(v, zeros):
             return TOP
         return v
     return v
+
+
+# ---------------------------------------------------------------------- component-wise maps by evaluation
+def leaf_names(ty, name):
+    if ty in FP:
+        return [name]
+    inner, n = TOWER[ty]
+    out = []
+    for i in range(n):
+        out += leaf_names(inner, "%s.%d" % (name, i))
+    return out
+
+
+def _mbnr(ty, leaves):
+    """multiplication by the level's non-residue generator, on the list of base-field leaves of a value of type `ty`"""
+    if ty == "crate::fields::fq2::Fq2":
+        return [mmul(Mono(-2), leaves[1]), leaves[0]]
+    inner, n = TOWER[ty]
+    k = len(leaves) // n
+    parts = [leaves[i * k:(i + 1) * k] for i in range(n)]
+    return _mbnr(inner, parts[-1]) + [x for p in parts[:-1] for x in p]
+
+
+def expected_map(ty, op):
+    """the defining component-wise / permuting action of `op` on a value `a` of tower type `ty` (and, for scalings by a base-field
+    element, `b`), as a list of monomials over the leaves; None when the action is not monomial"""
+    a = [Mono(1, {nm: 1}) for nm in leaf_names(ty, "a")]
+    if op in ("double", "triple", "div2"):
+        c = {"double": Mono(2), "triple": Mono(3), "div2": Mono(Fraction(1, 2))}[op]
+        return [mmul(c, x) for x in a]
+    if op == "unitary_inverse":
+        h = len(a) // 2 if ty != "crate::fields::fq12::Fq12" else None
+        if h is None:
+            return None
+        return a[:h] + [mmul(Mono(-1), x) for x in a[h:]]
+    if op == "mul_by_nonresidue":
+        return _mbnr(ty, a)
+    if op in ("scale", "scale_fq", "scale_by_fq"):
+        return [mmul(x, Mono(1, {"b": 1})) for x in a]
+    return None
+
+
+def evaluates_to(F, b, ty, op):
+    """does the function, evaluated in the monomial domain on opaque operands, return exactly the defining action on every path?"""
+    want = expected_map(ty, op)
+    if want is None:
+        return False
+    ins = b.rec.get("inputs") or []
+    ops = [(ins[0], shaped(ty, "a", ()))]
+    if len(ins) == 2:
+        bty = ins[1].lstrip("&").strip()
+        if bty not in FP:
+            return False
+        ops.append((ins[1], Mono(1, {"b": 1})))
+    elif len(ins) != 1:
+        return False
+    try:
+        rows = run_paths(F, b, ops)
+    except Exception:
+        return False
+    if not rows:
+        return False
+    for v, pc in rows:
+        zeros = {k for k, val in pc if val and k not in (None, "assumed-zero")}
+        if any(k is None and val for k, val in pc):
+            return False
+        got = _leaves(v, [])
+        if len(got) != len(want) or not all(isinstance(x, Mono) for x in got):
+            return False
+        w2 = [_subst(x, zeros) for x in want]
+        g2 = [_subst(x, zeros) for x in got]
+        if [x.key() if isinstance(x, Mono) else None for x in w2] != [x.key() if isinstance(x, Mono) else None for x in g2]:
+            return False
+    return True
